@@ -390,7 +390,16 @@ def judge(cx, behaviours, trace, rejected, crash, trace_module, play_cmd="play",
         tl = read_lines(t2)
         ok, tout = validate_single(cx, tl, trace_module, trace_cfg, tag="re%d" % rj["beh"])
         if ok:
-            raise Machinery("rejection of behaviour %d did not reproduce (flaky harness?)\n%s" % (rj["beh"], rj["tlc"]))
+            # keep what was rejected, for diagnosis
+            dd = os.path.join(VERIF, "replays", cx.pid, "unreproduced-%s-%d-%d" % (cx.tier, cx.seed, rj["beh"]))
+            shutil.rmtree(dd, ignore_errors=True)
+            os.makedirs(dd)
+            allines = read_lines(trace)
+            open(os.path.join(dd, "trace-rejected.ndjson"), "w").write("\n".join(allines[rj["first"] - 1:rj["last"]]) + "\n")
+            open(os.path.join(dd, "trace-replayed.ndjson"), "w").write("\n".join(tl) + "\n")
+            open(os.path.join(dd, "behaviour.ndjson"), "w").write(bl + "\n")
+            open(os.path.join(dd, "tlc.out"), "w").write(rj["tlc"])
+            raise Machinery("rejection of behaviour %d did not reproduce (kept in %s)\n%s" % (rj["beh"], dd, rj["tlc"]))
         what = describe_rejection(tout)
         if known_match:
             kf = known_match(bl, tl, tout)
